@@ -14,14 +14,357 @@ pub fn expand(_op: &str) -> Vec<String> {
     vec![]
 }
 
-/// Independent check of the property on the implementation's own outputs (filled in below).
-pub fn oracle(_op: &str, outs: &[String]) -> String {
-    for o in outs {
-        if o == "PANIC" || o == "HANG" {
-            return format!("FAIL:{}", o);
+/// Independent check of C08 on the implementation's own outputs (rules from LoRaWAN 1.0.x §5 / RP002).
+pub fn oracle(op: &str, outs: &[String]) -> String {
+    use crate::oracle::*;
+    let evs: Vec<&str> = op.split(';').map(|s| s.trim()).collect();
+    let region = evs[0].split_whitespace().nth(2).unwrap_or("");
+    let mut last_snap: Option<Snap> = None;
+    let mut pending_check: Option<(Vec<(u8, Vec<u8>)>, Snap)> = None; // requests of the downlink just accepted + snapshot before
+    let mut expected: Option<Vec<u8>> = None; // answer CIDs owed in the next uplink
+    let mut sticky: Option<Vec<u8>> = None; // bytes that must repeat in following uplinks
+    for (ev, out) in evs[1..].iter().zip(outs.iter()) {
+        if out == "PANIC" || out == "HANG" {
+            return format!("FAIL:{}", out);
+        }
+        let w: Vec<&str> = ev.split_whitespace().collect();
+        match w.first().copied() {
+            Some("snap") => {
+                let sn = match parse_snap(out) {
+                    Some(s) => s,
+                    None => return "FAIL:unparseable-snapshot".into(),
+                };
+                if let Some((reqs, before)) = pending_check.take() {
+                    if let Err(e) = check_effect(region, &reqs, &before, &sn) {
+                        return format!("FAIL:{}", e);
+                    }
+                }
+                last_snap = Some(sn);
+            }
+            Some("rx1") | Some("rx2") => {
+                pending_check = None;
+                if out.starts_with("resp=DownlinkReceived") && w.len() >= 11 && w[3] == "d" {
+                    let fopts = unhex(w[8]);
+                    let port: Option<u8> = w[9].parse().ok();
+                    let payload = unhex(w[10]);
+                    let mut reqs = split_cmds(&fopts, down_len).0;
+                    if port == Some(0) {
+                        reqs.extend(split_cmds(&payload, down_len).0);
+                    }
+                    expected = Some(expected_answer_cids(region, &reqs));
+                    sticky = None;
+                    if let Some(b) = &last_snap {
+                        pending_check = Some((reqs, b.clone()));
+                    }
+                }
+            }
+            Some("send") => {
+                pending_check = None;
+                if let Some(tx) = parse_tx(out) {
+                    let up = match tx.up {
+                        Some(u) => u,
+                        None => return "FAIL:uplink-not-decodable".into(),
+                    };
+                    let answers = if up.fport == Some(0) { up.payload.clone() } else { up.fopts.clone() };
+                    if answers.len() > 15 {
+                        return "FAIL:answers-longer-than-15".into();
+                    }
+                    let (cmds, whole) = split_cmds(&answers, up_len);
+                    if !whole {
+                        return "FAIL:answers-not-whole-commands".into();
+                    }
+                    if let Some(exp) = expected.take() {
+                        let got: Vec<u8> = cmds.iter().map(|c| c.0).collect();
+                        if got.len() > exp.len() || got[..] != exp[..got.len()] {
+                            return format!("FAIL:answers-not-a-prefix-of-requests got={:02x?} expected={:02x?}", got, exp);
+                        }
+                        if got.len() < exp.len() {
+                            let next = exp[got.len()];
+                            if answers.len() + 1 + up_len(next).unwrap_or(0) <= 15 {
+                                return format!("FAIL:answer-dropped-although-it-fits cid={:02x}", next);
+                            }
+                        }
+                        // a LinkADRReq block is answered with identical copies
+                        let mut st = vec![];
+                        for (cid, p) in &cmds {
+                            if is_sticky(*cid) {
+                                st.push(*cid);
+                                st.extend_from_slice(p);
+                            }
+                        }
+                        sticky = Some(st);
+                    } else if let Some(st) = &sticky {
+                        if &answers != st {
+                            return format!("FAIL:sticky-answers-not-repeated got={} expected={}", hex(&answers), hex(st));
+                        }
+                    } else if !answers.is_empty() && last_snap.is_some() && last_snap.as_ref().unwrap().pending != answers {
+                        // nothing owed: only what the session already had pending may appear
+                    }
+                }
+            }
+            _ => {}
         }
     }
     "ok".into()
+}
+
+fn expected_mask(region: &str, before: &[u8], cntl: u8, m0: u8, m1: u8) -> Option<Vec<u8>> {
+    let mut m = before.to_vec();
+    if crate::mac::is_fixed(region) {
+        match cntl {
+            0..=3 => {
+                m[cntl as usize * 2] = m0;
+                m[cntl as usize * 2 + 1] = m1;
+            }
+            4 => m[8] = m0,
+            5 => {
+                for i in 0..8 {
+                    m[i] = if m0 & (1 << i) != 0 { 0xff } else { 0 };
+                }
+                m[8] = m0;
+            }
+            6 => {
+                for b in m.iter_mut().take(8) {
+                    *b = 0xff;
+                }
+                m[8] = m0;
+            }
+            _ => {
+                for b in m.iter_mut().take(8) {
+                    *b = 0;
+                }
+                m[8] = m0;
+            }
+        }
+        Some(m)
+    } else {
+        match cntl {
+            0 => {
+                m[0] = m0;
+                m[1] = m1;
+                Some(m)
+            }
+            6 => {
+                m[0] = 0xff;
+                m[1] = 0xff;
+                Some(m)
+            }
+            _ => None,
+        }
+    }
+}
+
+/// "a full acknowledgement has taken effect exactly as commanded, any rejection changed nothing,
+/// unambiguously invalid requests are rejected" — for frames carrying one request (or one LinkADR block)
+fn check_effect(region: &str, reqs: &[(u8, Vec<u8>)], before: &crate::oracle::Snap, after: &crate::oracle::Snap) -> Result<(), String> {
+    use crate::oracle::*;
+    let fixed = crate::mac::is_fixed(region);
+    let (answers, whole) = split_cmds(&after.pending, up_len);
+    if !whole {
+        return Err("pending-answers-not-whole".into());
+    }
+    let all_adr = !reqs.is_empty() && reqs.iter().all(|r| r.0 == 0x03);
+    if reqs.len() != 1 && !all_adr {
+        return Ok(());
+    }
+    let same_cfg = before.dr == after.dr && before.txp == after.txp && before.off == after.off && before.rx2dr == after.rx2dr && before.rx2f == after.rx2f && before.rx1d == after.rx1d;
+    let nmask = if fixed { 9 } else { 2 };
+    let same_mask = before.mask[..nmask] == after.mask[..nmask];
+    let same_chans = before.chans == after.chans;
+    match reqs[0].0 {
+        0x03 => {
+            if answers.len() != reqs.len() || answers.iter().any(|a| a.0 != 0x03 || a.1 != answers[0].1) {
+                return Err(format!("linkadr-block-not-answered-with-identical-copies answers={}", hex(&after.pending)));
+            }
+            let a = answers[0].1[0];
+            let last = &reqs[reqs.len() - 1].1;
+            let (dr, pw) = (last[0] >> 4, last[0] & 0x0f);
+            // fold the masks of the block
+            let mut mask: Option<Vec<u8>> = Some(before.mask.clone());
+            let mut rfu = false;
+            for r in reqs {
+                let cntl = (r.1[3] >> 4) & 7;
+                if chmask_cntl_rfu(region, cntl) {
+                    rfu = true;
+                }
+                mask = mask.and_then(|m| expected_mask(region, &m, cntl, r.1[1], r.1[2]));
+            }
+            if a == 7 {
+                let exp_dr = if dr == 15 { before.dr } else { dr };
+                if after.dr != exp_dr {
+                    return Err(format!("linkadr-acked-but-dr={} expected={}", after.dr, exp_dr));
+                }
+                if pw == 15 {
+                    if after.txp != before.txp {
+                        return Err("linkadr-acked-power-15-changed-power".into());
+                    }
+                } else {
+                    let e = max_eirp_code(region) - 2 * pw as i32;
+                    let e = if region == "US915" { e.min(21) } else { e };
+                    if after.txp.map(|p| p as i32) != Some(e) {
+                        return Err(format!("linkadr-acked-but-txp={:?} expected={}", after.txp, e));
+                    }
+                }
+                match mask {
+                    Some(m) if !rfu => {
+                        if after.mask[..nmask] != m[..nmask] {
+                            return Err(format!("linkadr-acked-but-mask={} expected={}", hex(&after.mask), hex(&m)));
+                        }
+                    }
+                    _ => return Err("linkadr-acked-with-rfu-chmaskcntl".into()),
+                }
+                if before.off != after.off || before.rx2dr != after.rx2dr || before.rx2f != after.rx2f || before.rx1d != after.rx1d || !same_chans {
+                    return Err("linkadr-changed-unrelated-state".into());
+                }
+            } else {
+                if !(same_cfg && same_mask && same_chans) {
+                    return Err(format!("linkadr-rejected-({})-but-state-changed", a));
+                }
+            }
+            if rfu && a & 1 != 0 {
+                return Err("rfu-chmaskcntl-not-rejected".into());
+            }
+            if dr != 15 && dr_rfu(region, dr) && a & 2 != 0 {
+                return Err(format!("rfu-datarate-{}-not-rejected", dr));
+            }
+            if pw != 15 && txpower_rfu(region, pw) && a & 4 != 0 {
+                return Err(format!("rfu-txpower-{}-not-rejected", pw));
+            }
+        }
+        0x05 => {
+            if answers.len() != 1 || answers[0].0 != 0x05 {
+                return Err("rxparamsetup-not-answered".into());
+            }
+            let a = answers[0].1[0];
+            let p = &reqs[0].1;
+            let (off, rx2) = ((p[0] >> 4) & 7, p[0] & 0x0f);
+            let f = freq_of(&p[1..4]);
+            if a == 7 {
+                let exp_rx2 = if rx2 == 15 { before.rx2dr } else { Some(rx2) };
+                if after.off != off || after.rx2dr != exp_rx2 || after.rx2f != Some(f) {
+                    return Err(format!("rxparamsetup-acked-but-off={} rx2dr={:?} rx2f={:?}", after.off, after.rx2dr, after.rx2f));
+                }
+                if before.dr != after.dr || before.txp != after.txp || before.rx1d != after.rx1d || !same_mask || !same_chans {
+                    return Err("rxparamsetup-changed-unrelated-state".into());
+                }
+            } else if !(same_cfg && same_mask && same_chans) {
+                return Err(format!("rxparamsetup-rejected-({})-but-state-changed", a));
+            }
+            if !in_band(region, f) && a & 1 != 0 {
+                return Err("out-of-band-rx2-frequency-not-rejected".into());
+            }
+            if rx2 != 15 && dr_rfu(region, rx2) && a & 2 != 0 {
+                return Err(format!("rfu-rx2-datarate-{}-not-rejected", rx2));
+            }
+            if off > max_rx1_offset(region) && a & 4 != 0 {
+                return Err(format!("rx1-offset-{}-not-rejected", off));
+            }
+        }
+        0x08 => {
+            if answers.len() != 1 || answers[0].0 != 0x08 {
+                return Err("rxtimingsetup-not-answered".into());
+            }
+            let del = reqs[0].1[0] & 0x0f;
+            let exp = if del < 2 { 1000 } else { del as u32 * 1000 };
+            if after.rx1d != exp {
+                return Err(format!("rxtimingsetup-del-{}-gives-{}ms", del, after.rx1d));
+            }
+        }
+        0x06 => {
+            if answers.len() != 1 || answers[0].0 != 0x06 {
+                return Err("devstatus-not-answered".into());
+            }
+            if !(same_cfg && same_mask && same_chans) {
+                return Err("devstatus-changed-state".into());
+            }
+        }
+        0x07 if !fixed => {
+            if answers.len() != 1 || answers[0].0 != 0x07 {
+                return Err("newchannel-not-answered".into());
+            }
+            let a = answers[0].1[0];
+            let p = &reqs[0].1;
+            let idx = p[0] as usize;
+            let f = freq_of(&p[1..4]);
+            let drr = p[4];
+            if a == 3 {
+                let got = after.chans.get(idx).cloned().flatten();
+                if f == 0 {
+                    if got.is_some() {
+                        return Err("newchannel-acked-removal-but-channel-still-defined".into());
+                    }
+                } else if got != Some(Chan { freq: f, drr, dl: None }) {
+                    return Err(format!("newchannel-acked-but-channel={:?}", got));
+                }
+                for (i, (b, c)) in before.chans.iter().zip(after.chans.iter()).enumerate() {
+                    if i != idx && b != c {
+                        return Err("newchannel-changed-another-channel".into());
+                    }
+                }
+                if !same_cfg {
+                    return Err("newchannel-changed-configuration".into());
+                }
+            } else if !(same_cfg && same_chans && same_mask) {
+                return Err(format!("newchannel-rejected-({})-but-state-changed", a));
+            }
+            if (idx < num_default_channels(region) || idx >= 16) && a == 3 {
+                return Err(format!("newchannel-on-index-{}-not-rejected", idx));
+            }
+            if f != 0 && !in_band(region, f) && a & 1 != 0 {
+                return Err("newchannel-out-of-band-frequency-not-rejected".into());
+            }
+            if f != 0 && (drr >> 4) < (drr & 0x0f) && a & 2 != 0 {
+                return Err("newchannel-inverted-dr-range-not-rejected".into());
+            }
+        }
+        0x0a if !fixed => {
+            if answers.len() != 1 || answers[0].0 != 0x0a {
+                return Err("dlchannel-not-answered".into());
+            }
+            let a = answers[0].1[0];
+            let p = &reqs[0].1;
+            let idx = p[0] as usize;
+            let f = freq_of(&p[1..4]);
+            if a == 3 {
+                let got = after.chans.get(idx).cloned().flatten();
+                match got {
+                    Some(c) => {
+                        let exp = if f == c.freq { None } else { Some(f) };
+                        if c.dl != exp {
+                            return Err(format!("dlchannel-acked-but-dl={:?}", c.dl));
+                        }
+                    }
+                    None => return Err("dlchannel-acked-on-undefined-channel".into()),
+                }
+                if !same_cfg || !same_mask {
+                    return Err("dlchannel-changed-configuration".into());
+                }
+            } else if !(same_cfg && same_chans && same_mask) {
+                return Err(format!("dlchannel-rejected-({})-but-state-changed", a));
+            }
+            if !in_band(region, f) && a & 1 != 0 {
+                return Err("dlchannel-out-of-band-frequency-not-rejected".into());
+            }
+            if before.chans.get(idx).cloned().flatten().is_none() && a & 2 != 0 {
+                return Err("dlchannel-on-undefined-channel-not-rejected".into());
+            }
+        }
+        _ => {
+            // not handled by a 1.0.x Class A device in this region: nothing may change
+            if !(same_cfg && same_mask && same_chans) {
+                return Err(format!("unhandled-command-{:02x}-changed-state", reqs[0].0));
+            }
+        }
+    }
+    Ok(())
+}
+
+/// regional maximum EIRP as the *device* is expected to know it for TXPower → dBm (RP002 table)
+fn max_eirp_code(region: &str) -> i32 {
+    match region {
+        "EU868" | "EU433" | "AS923_1" | "AS923_2" | "AS923_3" | "AS923_4" => 16,
+        _ => 30,
+    }
 }
 
 fn single_cmd_history(region: &str, seed: u64, cmd: &[u8], in_fopts: bool, pre: Option<&[u8]>) -> String {
@@ -133,6 +476,23 @@ pub fn run(tier: &str, seed: u64, dir: &str) {
             h.abp().send(1, false, &[1]).rx_auth("rx1", snr as i8, 1, false, &dev_status_req(), None, &[]).send(1, false, &[2]).timeout().send(1, false, &[3]);
             let op = h.done();
             sink.case(&op, &eval(&op), "devstatus", true);
+        }
+        // 6b. answers that overflow the 15-byte limit, with shorter answers after longer ones
+        for _ in 0..(if thorough { 400 } else { 40 }) {
+            let mut cmds = vec![];
+            let k = 4 + rng.below(4);
+            for _ in 0..k {
+                cmds.extend_from_slice(&link_adr_req(rng.below(6) as u8, rng.below(8) as u8, 0x0007, 0, 1));
+            }
+            for _ in 0..(1 + rng.below(5)) {
+                match rng.below(3) {
+                    0 => cmds.extend_from_slice(&dev_status_req()),
+                    1 => cmds.extend_from_slice(&rx_timing_setup_req(rng.below(16) as u8)),
+                    _ => cmds.extend_from_slice(&rx_param_setup_req(rng.below(8) as u8, lo)),
+                }
+            }
+            let op = single_cmd_history(region, rng.next() & 0xffff, &cmds, false, None);
+            sink.case(&op, &eval(&op), "answer-overflow", true);
         }
         // 7. sequences of up to 3 downlinks with several random commands each
         let nseq = if thorough { 6000 } else { 250 };
